@@ -1,5 +1,6 @@
 import EupsModel.Drv.Util
 import EupsModel.Model.Setup
+import EupsModel.Model.SetupEmit
 /-! Driver handler "c01" (shared by the C01, C02 and C04 harnesses): ops "setup" and "unsetup".
 
 Request
@@ -7,7 +8,8 @@ Request
 {"m":"c01","op":"setup"|"unsetup","fuel":N,
  "db":{"decls":[{"name","ver","stack":k,"dir","table":[ACT…]}…],"tags":[[tag,name,ver,k]…]},
  "env":{"recs":{name:[ver,k]},"dirs":{name:str},"paths":{var:[str…]},"vars":{var:str}},
- "req":{"name","ver":VERREQ|null,"keep":bool,"max_depth":int,"inexact":bool,"tags":[str…],"path":[k…]}}
+ "req":{"name","ver":VERREQ|null,"keep":bool,"max_depth":int,"inexact":bool,"tags":[str…],"path":[k…]},
+ "layout":{"roots":[dir…],"delims":{var:delim},"subst":[[placeholder,dir]…],"flavor":str}}     (optional: answer gets "sh")
 ACT    = {"g":"always"|"exact"|"inexact","a":"prepend","var","vals":[{"own":bool,"val"}…],"append":bool}
        | {"g",…,"a":"set","var","own":bool,"val"} | {"g",…,"a":"alias","key","val"}
        | {"g",…,"a":"dep","name","opt":bool,"just":bool,"ver":VERREQ|null,"vexpr":EXPR|null,"tags":[str…],"keep":bool}
@@ -171,8 +173,21 @@ def handle : Handler := fun j => do
     | .cmds l => [("emit", if l == [Cmd.false_] then "false" else "cmds"), ("cmds", Json.arr (l.map (cmdToJson db)).toArray)]
     | .raised => [("emit", "raised")]
     | .fuel => [("emit", "fuel")]
+  -- optional: the command strings of `eups.app.setup` (Model/Setup composed with Model/ShellEmit)
+  let sh : List (String × Json) ← match optField j "layout" with
+    | none => pure []
+    | some lj => do
+      let delims ← (← objList lj "delims").mapM fun (k, v) => do pure (Str.ofString k, Str.ofString (← v.getStr?))
+      let subst ← (← jarr lj "subst").mapM fun t => do
+        let a ← t.getArr?
+        if a.size != 2 then throw "bad substitution"
+        pure (Str.ofString (← a[0]!.getStr?), Str.ofString (← a[1]!.getStr?))
+      let L : SetupEmit.Layout := ⟨← jstrs lj "roots", delims, subst, ← jstr lj "flavor"⟩
+      pure [("sh", match SetupEmit.emitSh db L (appSetup db fuel fwd req env) with
+        | some l => ofStrs l
+        | none => Json.null)]
   let vro := ("vro", Json.arr (req.vro.map vroToJson).toArray)
-  pure <| Json.mkObj <| vro :: emit ++ match res with
+  pure <| Json.mkObj <| vro :: emit ++ sh ++ match res with
     | .ok s => ("out", "ok") :: stFields db s
     | .notFound s => ("out", "notfound") :: stFields db s
     | .raised s => ("out", "raised") :: stFields db s
